@@ -438,11 +438,9 @@ func runC06(p *Prog, r *Report, tier string) {
 			}
 			c.mustPass("G-mpt", "send-before-success", []ssa.Instruction{call}, c.successReturns())
 		}
-		for _, ret := range allReturns(c.fn) {
-			if p.exitKind(c.x, ret) == "error" {
-				continue
-			}
-			c.checkLit("T-eq", "response", c.x.Of(ret.Results[0], ret), row.resp, map[string]string{"Nonce": "RES.Nonce"}, p.instrPos(ret))
+		for _, sr := range c.successResults() {
+			ret := sr.ret
+			c.checkLit("T-eq", "response", sr.vals[0], row.resp, map[string]string{"Nonce": "RES.Nonce"}, p.instrPos(ret))
 		}
 	}
 	// deposit handlers: bindings and response
@@ -463,12 +461,10 @@ func runC06(p *Prog, r *Report, tier string) {
 				}
 			}
 		}
-		for _, ret := range allReturns(c.fn) {
-			if p.exitKind(c.x, ret) == "error" {
-				continue
-			}
-			c.checkLit("T-eq", "response", c.x.Of(ret.Results[0], ret), row.resp, map[string]string{"Nonce": "DFB#0"}, p.instrPos(ret))
-			c.teq("T-eq", "response.err", c.term(ret.Results[1], ret), "DFB#1", p.instrPos(ret))
+		for _, sr := range c.successResults() {
+			ret := sr.ret
+			c.checkLit("T-eq", "response", sr.vals[0], row.resp, map[string]string{"Nonce": "DFB#0"}, p.instrPos(ret))
+			c.teq("T-eq", "response.err", c.sh(sr.vals[1].String()), "DFB#1", p.instrPos(ret))
 		}
 	}
 	if c := p.fc(r, p.Func("keeper.msgServer.depositForBurn"), "depositForBurn", abDFB[:9]); c != nil {
@@ -495,11 +491,9 @@ func runC06(p *Prog, r *Report, tier string) {
 		} else {
 			r.fail("T-eq", "T-eq/depositForBurn/event-sites", c.pos(), fmt.Sprintf("%d event sites", len(evs)))
 		}
-		for _, ret := range allReturns(c.fn) {
-			if p.exitKind(c.x, ret) == "error" {
-				continue
-			}
-			c.teq("T-eq", "returned-nonce", c.term(ret.Results[0], ret), "phi(SM#0.Nonce|SMC#0.Nonce)", p.instrPos(ret))
+		for _, sr := range c.successResults() {
+			ret := sr.ret
+			c.teq("T-eq", "returned-nonce", c.sh(sr.vals[0].String()), "phi(SM#0.Nonce|SMC#0.Nonce)", p.instrPos(ret))
 		}
 	}
 	if c := p.fc(r, handlerFn(p, "ReplaceDepositForBurn"), "ReplaceDepositForBurn", abRPM[:8]); c != nil {
@@ -581,11 +575,9 @@ func runC07(p *Prog, r *Report, tier string) {
 		if call := c.oneCall("T-eq", "k.sendMessage"); call != nil {
 			c.teq("T-eq", "nonce-argument", c.args(call)[5], "RES.Nonce", p.instrPos(call))
 		}
-		for _, ret := range allReturns(c.fn) {
-			if p.exitKind(c.x, ret) == "error" {
-				continue
-			}
-			_, f, ok := c.litFields(c.x.Of(ret.Results[0], ret))
+		for _, sr := range c.successResults() {
+			ret := sr.ret
+			_, f, ok := c.litFields(sr.vals[0])
 			if ok {
 				c.teq("T-eq", "response-nonce", f["Nonce"], "RES.Nonce", p.instrPos(ret))
 			} else {
@@ -622,11 +614,9 @@ func runC07(p *Prog, r *Report, tier string) {
 		"W:" + S + "SetNextAvailableNonce": {"cctp.InitGenesis"}})
 	foundGetterContract(p, r, "GetNextAvailableNonce", nonceRegion, `[]byte("NextAvailableNonce/value/")`, "types.Nonce{}")
 	if c := p.fc(r, p.Func("keeper.Keeper.NextAvailableNonce"), "query.NextAvailableNonce", nil); c != nil {
-		for _, ret := range allReturns(c.fn) {
-			if p.exitKind(c.x, ret) == "error" {
-				continue
-			}
-			c.checkLit("T-eq", "response", c.x.Of(ret.Results[0], ret), "types.QueryGetNextAvailableNonceResponse", map[string]string{"Nonce": "k.GetNextAvailableNonce(ctx)#0"}, p.instrPos(ret))
+		for _, sr := range c.successResults() {
+			ret := sr.ret
+			c.checkLit("T-eq", "response", sr.vals[0], "types.QueryGetNextAvailableNonceResponse", map[string]string{"Nonce": "k.GetNextAvailableNonce(ctx)#0"}, p.instrPos(ret))
 		}
 		g := []Atom{A("k.GetNextAvailableNonce(ctx)#1")}
 		c.requireCut("G-cut", "found", g, c.successReturns())
